@@ -1139,7 +1139,11 @@ package compose
 //@   at call tm.submit: ghost supersteps++
 //@   at call 1 r.handleInterrupt: assert[initial_before_reported] @C06 forall(i int :: 0 <= i && i < len(nextTasks) && inList(nextTasks[i].nodeKey, r.interruptBeforeNodes) ==> inList(nextTasks[i].nodeKey, hit))
 //@   at call 2 r.handleInterrupt: assert[before_reported] @C06 forall(i int :: 0 <= i && i < len(nextTasks) && inList(nextTasks[i].nodeKey, r.interruptBeforeNodes) ==> inList(nextTasks[i].nodeKey, interruptBeforeNodes))
-//@   note the interrupt raised after draining (waitAll) reports the union of two getHitKey results; the membership of the second part in the appended list needs an offset witness the solvers do not find, so that half is not asserted
+//@   ghost hits2 []string = nil
+//@   after call 3 getHitKey: ghost hits2 = result
+//@   at call 2 r.handleInterrupt: assert[drained_tail] @C06 len(interruptBeforeNodes) >= len(hits2) && forall(m int :: 0 <= m && m < len(hits2) ==> exists(q int := len(interruptBeforeNodes) - len(hits2) + m :: 0 <= q && q < len(interruptBeforeNodes) && interruptBeforeNodes[q] == hits2[m]))
+//@   after call 3 getHitKey: assert[drained_hits_complete] @C06 forall(i int :: 0 <= i && i < len(newNextTasks) && inList(newNextTasks[i].nodeKey, r.interruptBeforeNodes) ==> inList(newNextTasks[i].nodeKey, result))
+//@   note drained report: drained_hits_complete (every interrupt-before node among newNextTasks is in the second getHitKey result) and drained_tail (that result is contained in the reported list) compose to "reported"; the composed statement over the final memory is not asserted (550 KB query, no solver finishes)
 //@   ensures[graph_callbacks_paired] @C10 starts == 1 && ends == 1
 //@   ensures[one_outcome] result == nil || err == nil
 //@   loop 3:
@@ -1147,3 +1151,44 @@ package compose
 //@     invariant[counters] supersteps == step && step >= 0 && starts == 1 && ends == 0 && haveOnStart
 //@     invariant[limit] r.dag || maxSteps >= 1
 //@     invariant[tasks_filtered] (step == 0 && fromCp) || noneBefore(r, nextTasks)
+
+// ---------------------------------------------------------------------------------------------------
+// workflow.go — overlap detection between the mapped target paths of one workflow node (C15)
+// ---------------------------------------------------------------------------------------------------
+
+//@ spec trieRoot(n *WorkflowNode) map[string]any = unbox(n.mappedFieldPath[""], "map[string]any")
+//@ spec hasTrie(n *WorkflowNode) bool = in("", n.mappedFieldPath) && is(n.mappedFieldPath[""], "map[string]any")
+
+//@ spec trieShape() bool = forall(mm map[string]any, k string :: in(k, mm) ==> is(mm[k], "struct{}") || (is(mm[k], "map[string]any") && unbox(mm[k], "map[string]any") != nil))
+
+//@ func (*WorkflowNode).checkAndAddMappedPath
+//@   props C15
+//@   requires n != nil && n.mappedFieldPath != nil
+//@   requires[paths_nonempty] forall(j int :: 0 <= j && j < len(paths) ==> len(paths[j]) > 0)
+//@   requires[trie_shape] trieShape()
+//@   requires[outer_separate] forall(mm map[string]any, k string :: in(k, mm) && is(mm[k], "map[string]any") ==> unbox(mm[k], "map[string]any") != n.mappedFieldPath)
+//@   modifies forall(mm map[string]any, k string :: !old(in(k, mm)) ==> mm[k]), fresh()
+//@   ensures[trie_shape] trieShape()
+//@   ensures[entries_kept] @C15 forall(mm map[string]any, k string :: !fresh(mm) && old(in(k, mm)) ==> in(k, mm) && mm[k] == old(mm[k]))
+//@   ensures[whole_after_part] @C15 old(in("", n.mappedFieldPath)) && len(paths) == 0 ==> result != nil
+//@   ensures[part_after_whole] @C15 old(in("", n.mappedFieldPath)) && old(is(n.mappedFieldPath[""], "struct{}")) ==> result != nil
+//@   ensures[top_level_prefix] @C15 old(hasTrie(n)) && result == nil ==> forall(j int :: 0 <= j && j < len(paths) && len(paths[j]) == 1 ==> !old(in(paths[j][0], trieRoot(n))))
+//@   ensures[top_level_terminal] @C15 old(hasTrie(n)) && result == nil ==> forall(j int :: 0 <= j && j < len(paths) && old(in(paths[j][0], trieRoot(n))) ==> !old(is(trieRoot(n)[paths[j][0]], "struct{}")))
+//@   loop 1:
+//@     modifies forall(mm map[string]any, k string :: !old(in(k, mm)) ==> mm[k]), fresh()
+//@     invariant[outer_separate] forall(mm map[string]any, k string :: in(k, mm) && is(mm[k], "map[string]any") ==> unbox(mm[k], "map[string]any") != n.mappedFieldPath)
+//@     invariant[root] hasTrie(n) && trieRoot(n) != nil && (old(hasTrie(n)) ==> trieRoot(n) == old(trieRoot(n)))
+//@     invariant[trie_shape] trieShape()
+//@     invariant[entries_kept] forall(mm map[string]any, k string :: !fresh(mm) && old(in(k, mm)) ==> in(k, mm) && mm[k] == old(mm[k]))
+//@     invariant[top_level_prefix] old(hasTrie(n)) ==> forall(j int :: 0 <= j && j < $i && len(paths[j]) == 1 ==> !old(in(paths[j][0], trieRoot(n))))
+//@     invariant[top_level_terminal] old(hasTrie(n)) ==> forall(j int :: 0 <= j && j < $i && old(in(paths[j][0], trieRoot(n))) ==> !old(is(trieRoot(n)[paths[j][0]], "struct{}")))
+//@   loop 2:
+//@     modifies forall(mm map[string]any, k string :: !old(in(k, mm)) ==> mm[k]), fresh()
+//@     invariant[traversed] traversed == nil || fresh(traversed)
+//@     invariant[first_new] $i >= 1 && old(hasTrie(n)) ==> forall(k string :: k == targetPath[0] ==> (len(targetPath) == 1 ==> !old(in(k, trieRoot(n)))) && (old(in(k, trieRoot(n))) ==> !old(is(trieRoot(n)[k], "struct{}"))))
+//@     invariant[m] m != nil && m != n.mappedFieldPath
+//@     invariant[outer_separate] forall(mm map[string]any, k string :: in(k, mm) && is(mm[k], "map[string]any") ==> unbox(mm[k], "map[string]any") != n.mappedFieldPath)
+//@     invariant[root] hasTrie(n) && trieRoot(n) != nil && (old(hasTrie(n)) ==> trieRoot(n) == old(trieRoot(n)))
+//@     invariant[trie_shape] trieShape()
+//@     invariant[entries_kept] forall(mm map[string]any, k string :: !fresh(mm) && old(in(k, mm)) ==> in(k, mm) && mm[k] == old(mm[k]))
+//@     invariant[at_root] $i == 0 ==> m == trieRoot(n)
